@@ -309,8 +309,13 @@ def drive(prop, tier, seed):
     for name, minimum in req.items():
         if isinstance(minimum, dict):
             continue
-        if merged.counters.get(name, 0) < minimum:
-            reasons.append('deciding counter %s=%d < %d' % (name, merged.counters.get(name, 0), minimum))
+        if name.endswith('*'):
+            have = sum(1 for k, v in merged.counters.items() if k.startswith(name[:-1]) and v > 0)
+            merged.counters['distinct(' + name + ')'] = have
+        else:
+            have = merged.counters.get(name, 0)
+        if have < minimum:
+            reasons.append('deciding counter %s=%d < %d' % (name, have, minimum))
     if merged.evaluations == 0:
         reasons.append('no case was executed')
     if len(merged_hashes) < 2:
@@ -345,7 +350,7 @@ def drive(prop, tier, seed):
 
     print('property=%s tier=%s seed=%d evaluations=%d distinct_nontrivial=%d wall=%.1fs' % (
         prop, tier, seed, merged.evaluations, len(merged_hashes), wall))
-    keys = sorted(merged.counters)
+    keys = [k for k in sorted(merged.counters) if not k.startswith(('pr.', 'fn.'))]
     print('counters: ' + ', '.join('%s=%d' % (k, merged.counters[k]) for k in keys[:60]))
     for key, (k, vs) in sorted(listed.items()):
         print('KNOWN-FINDING: property=%s %s [%s] (%d occurrence(s) this run, e.g. %s)' % (
